@@ -813,7 +813,7 @@ def selftest(tier: str) -> int:
     """(i) corrupted records must be rejected by TLC with the right clause; (ii) in-process mutation
     probes (realistic bugs, never written to /repo) must each be killed; (iii) neutral variants (the
     proposed fixes, the other reading of the upper-case zone) must stay clean."""
-    from contextlib import ExitStack, contextmanager
+    from contextlib import contextmanager
     from .core import run_probes
     w = World.get()
     dd = w.dd
